@@ -13,7 +13,7 @@
    Options.LocationsForDescriptor. *)
 From Coq Require Import String.
 From OCI Require Import Base.Outcome Model.Ref Model.Errors Model.Request Model.Server Model.ServerSpec
-  Model.ServerLegacy Proofs.Request Proofs.Server Proofs.ServerThms.
+  Model.ServerStream Model.ServerLegacy Proofs.Request Proofs.Server Proofs.ServerThms Proofs.ServerStream.
 
 (* 1. no_panic: the handler returns a response; it neither panics nor leaves the model. *)
 Theorem C06_no_panic :
@@ -158,6 +158,51 @@ Theorem C06_all_closed_unrepaired_refuted :
     r = Ok tt /\ wb_trace (rev (h_tr st)) = true /\ closed_ok (rev (h_tr st)) = false.
 Proof. exact manifest_get_unrepaired_leaks. Qed.
 Print Assumptions C06_all_closed_unrepaired_refuted.
+
+(* 6. streamed_readers: blob GET, ranged blob GET and manifest GET (by tag and by digest) stream
+   a backend reader after the status and the Content-Length of the promised content are out.
+   [VRead d data] in the trace is what io.Copy read from the reader: for a reader whose Read
+   fails part-way, the bytes it delivered before the failure.  Whatever the backend does (no
+   hypothesis on it), a response with a 2xx status produced while a reader was held carries
+   exactly the bytes that reader delivered and is not a marshalled document: a failure that shows
+   after the success status is out is never turned into an error body behind it. *)
+Theorem C06_streamed_body :
+  forall linked digest_of subject_of enc redirect B (bstep : backend B) o b req,
+    let '(_, tr, r) := handle linked digest_of subject_of enc redirect B bstep o b req in
+    forall resp data, r = Ok resp -> last_of reader_data tr None = Some data ->
+    (200 <= p_status resp < 300)%Z -> p_body resp = data /\ p_json resp = None.
+Proof. exact streamed_body. Qed.
+Print Assumptions C06_streamed_body.
+
+(* ... hence the specification clause for such exchanges ([stream_ok], Model/ServerStream.v): with
+   [rs] saying, reader by reader, what each had promised beyond what it delivered, under a 2xx
+   status the response is not an error document and its body is a prefix of the content the
+   last reader promised. *)
+Theorem C06_streamed_prefix :
+  forall linked digest_of subject_of enc redirect B (bstep : backend B) o b req rs,
+    let '(_, tr, r) := handle linked digest_of subject_of enc redirect B bstep o b req in
+    forall resp, r = Ok resp -> stream_ok tr rs resp = true.
+Proof. exact streamed_prefix. Qed.
+Print Assumptions C06_streamed_prefix.
+
+(* The clause constrains the body: after a reader of "abcd" that failed after "ab", the two
+   bytes (or any prefix of the promised four) are accepted under 200; the two bytes followed by
+   anything else, or an error document under 200, are refused. *)
+Theorem C06_streamed_discriminates :
+  let d := {| d_media := s "application/octet-stream"; d_digest := []; d_size := 4; d_artifact := [] |} in
+  let tr := [ECall (GetTag (s "foo") (s "latest")) (Ok (VRead d (s "ab"))); ECloseR] in
+  let rs := [mkrs (s "cd") (Some (Plain (s "reset"))) None] in
+  let e := JErr (W (s "UNKNOWN") [] None) in
+  stream_ok tr rs (mkresp 200 [] (s "ab") None) = true
+  /\ stream_ok tr rs (mkresp 200 [] [] None) = true
+  /\ stream_ok tr rs (mkresp 200 [] (s "abc") None) = true
+  /\ stream_ok tr rs (mkresp 200 [] (s "ab{}") None) = false
+  /\ stream_ok tr rs (mkresp 200 [] (s "abcde") None) = false
+  /\ stream_ok tr rs (mkresp 200 [] [] (Some e)) = false
+  /\ stream_ok tr rs (mkresp 206 [] (s "x") None) = false
+  /\ stream_ok tr rs (mkresp 500 [] (s "{}") (Some e)) = true.
+Proof. exact stream_ok_discriminates. Qed.
+Print Assumptions C06_streamed_discriminates.
 
 (* The Location of an upload: for a valid repository name and a non-empty valid UTF-8 upload
    ID, MustConstruct of the upload-info request succeeds (url.Parse and Parse accept what
